@@ -7,7 +7,7 @@ from . import logixreq as Q
 from .harness import call
 
 META = {
-    "rule": "personalities {v17, v20, v21, v32, m800} x connection {4000, 500} x projects {P1 atoms, P2 structures, P3 scopes} x memory images "
+    "rule": "personalities {v17, v20, v21, v32, m800} x connection {4000, 500} x projects {P0 = demo project rebuilt from tests/pycomm3.L5X with its recorded memory, P1 atoms, P2 structures, P3 scopes} x memory images "
     "x the read-request alphabet derived from the project model (every tag; every member recursively; [i] for every index of small "
     "arrays and {0,1,mid,last} of large ones; index tuples of 2-/3-D arrays; {n} for n in {1,2,len-1,len}; .bit for every bit of "
     "SINT/INT leaves and boundary bits of DINT/LINT; BOOL-array indices and ranges around DWORD boundaries; program-scoped "
@@ -75,6 +75,12 @@ def shards(tier, seed):
             for conn in CONNS:
                 sh.append(("single", pn, pers, conn))
                 sh.append(("lists", pn, pers, conn))
+    # P0: the demo project rebuilt from tests/pycomm3.L5X with the memory recorded there
+    for pers in ("v20", "v32"):
+        for conn in CONNS:
+            sh.append(("single", "P0", pers, conn))
+            sh.append(("lists", "P0", pers, conn))
+    sh.append(("online", "P0", "v20", 500))
     return sh
 
 
@@ -96,9 +102,50 @@ def packet_class(proj, text, conn):
     return "fragmented" if n > conn - 40 else "plain"
 
 
+def online_shard(rep, pers, conn):
+    """The (tag, documented type, value) triples of tests/online, recorded on the real demo PLC, as an independent oracle on P0."""
+    import importlib
+
+    proj, ctl, t, w, d, r = open_world("P0", pers, conn, 0)
+    try:
+        on = importlib.import_module("tests.online")
+    except Exception as e:  # noqa
+        rep.sample({"online_triples": "tests.online not importable: %r" % (e,)})
+        rep.case(("online", "unavailable"), nontrivial=False, outcome="skipped")
+        w.__exit__()
+        return
+    base = on.BASE_ATOMIC_TESTS + on.BASE_ATOMIC_ARRAY_TESTS + on.BASE_STRUCT_TESTS
+    triples = [(f"read{tag}", dt, val) for tag, dt, val in base] + [(f"Program:pycomm3.read_prog{tag}", dt, val) for tag, dt, val in base]
+    agree = stale = 0
+    for tag, dt, val in triples:
+        want = Q.read_expect(proj, tag)
+        if want[0] != "ok":
+            rep.case(("online", tag), nontrivial=False, outcome="not-in-l5x")
+            continue  # AOI tags and tags missing from the export
+        out = call(d.read, tag)
+        probs = [("exception", repr(out)[:100])] if out[0] != "ok" else judge(out[1], want, tag)
+        # the recorded expectation, where the L5X memory still holds the value the online test expects
+        ref_matches_online = want[2] == dt and (want[1] == val)
+        if ref_matches_online:
+            agree += 1
+        else:
+            stale += 1
+        rep.case(("online", tag), outcome="ok" if not probs else probs[0][0])
+        for clause, detail in probs:
+            rep.violation(f"read/online-triple/{clause}", f"P0 {pers}/{conn}: read({tag!r}) {detail}; tests/online expects ({dt!r}, {val!r:.60})", {"cfg": ["P0", pers, conn], "image": 0, "requests": [tag], "choices": []})
+    rep.add("online_triples_where_reference_equals_recorded_expectation", agree)
+    rep.add("online_triples_with_different_memory_in_the_l5x", stale)
+    rep.sample({"online_triples": len(triples), "reference_equals_recorded_expectation": agree, "l5x_memory_differs": stale})
+    call(d.close)
+    w.__exit__()
+
+
 def run_shard(shard, tier, seed):
     rep = Report()
     kind, pn, pers, conn = shard
+    if kind == "online":
+        online_shard(rep, pers, conn)
+        return rep
     proj, ctl, t, w, d, r = open_world(pn, pers, conn, 0, reduced=(tier != "thorough"))
     cfg = (pn, pers, conn)
     if r != ("ok", True):
@@ -108,8 +155,9 @@ def run_shard(shard, tier, seed):
         return rep
     reqs = [(x, c) for x, c in Q.read_requests(proj, bits="all" if tier == "thorough" else "boundary")]
     bound = 2 if tier == "thorough" else 1
-    for image in images_for(tier, seed):
-        fill_image(proj, image)
+    for image in ([0] if pn == "P0" else images_for(tier, seed)):
+        if pn != "P0":
+            fill_image(proj, image)
         if kind == "single":
             for text, cls in reqs:
                 want = Q.read_expect(proj, text)
